@@ -18,6 +18,17 @@ _installed = [False]
 ON_UPDATE_DONE = []   # callbacks(root, date) run when an outermost root.update completes
 
 
+def top(node):
+    """Top of the tree a node hangs in, by parent links (inside a paper shadow `.root` of the children still names a copy of the real root)."""
+    n = node
+    for _ in range(64):
+        p = n.parent
+        if p is n or p is None:
+            return n
+        n = p
+    return n
+
+
 def _seq():
     _SEQ[0] += 1
     return _SEQ[0]
@@ -40,13 +51,13 @@ def install():
         finally:
             pos1 = self._position
             if pos1 != pos0:
-                EV.append({"k": "trade", "seq": _seq(), "sec": self, "parent": par, "root": self.root, "date": par.now, "q": float(q),
+                EV.append({"k": "trade", "seq": _seq(), "sec": self, "parent": par, "root": top(par), "date": par.now, "q": float(q),
                            "p": self._price, "cp": price, "m": self.multiplier, "bo": self._bidoffer if self._bidoffer_set else 0.0,
                            "pos0": pos0, "pos1": pos1})
         return r
 
     def adjust(self, amount, update=True, flow=True, fee=0.0):
-        EV.append({"k": "adjust", "seq": _seq(), "node": self, "root": self.root, "date": self.now, "amount": float(amount), "flow": bool(flow),
+        EV.append({"k": "adjust", "seq": _seq(), "node": self, "root": top(self), "date": self.now, "amount": float(amount), "flow": bool(flow),
                    "fee": float(fee), "update": bool(update)})
         return o_adjust(self, amount, update, flow, fee)
 
@@ -70,7 +81,7 @@ def install():
                         cb(self, date)
 
     def salloc(self, amount, update=True):
-        e = {"k": "alloc", "seq": _seq(), "sec": self, "parent": self.parent, "root": self.root, "amount": float(amount), "pos0": self._position,
+        e = {"k": "alloc", "seq": _seq(), "sec": self, "parent": self.parent, "root": top(self.parent), "amount": float(amount), "pos0": self._position,
              "exc": None}
         EV.append(e)
         try:
